@@ -97,7 +97,7 @@ static void construct(std::string const & op, std::string const & resSort, std::
     // C28 (2): argument order does not matter where the result symbol is marked commutative
     if (commutativeCandidate && args.size() >= 2) {
         Pterm const & t = logicp->getPterm(r);
-        if (logicp->getSym(t.symb()).commutes()) {
+        if (logicp->getSym(t.symb()).commutes() or (op == "distinct" and logicp->isDisequality(t.symb()))) {
             vec<PTRef> v3; v.copyTo(v3);
             std::reverse(v3.begin(), v3.end());
             try {
@@ -231,7 +231,9 @@ int main(int argc, char ** argv) {
         else if (k == 8) {
             std::string s = eqSorts[rnd(eqSorts.size())];
             auto a = argsOf(s, 2 + rnd(3));
-            construct("distinct", "Bool", a, [&](vec<PTRef> && v) { return logicp->mkDistinct(std::move(v)); }, false);
+            // mkDistinct sorts its arguments when there are three or more of them (two arguments become a negated equality,
+            // whose order is only partially normalised): order-insensitivity is demanded of the n-ary form only
+            construct("distinct", "Bool", a, [&](vec<PTRef> && v) { return logicp->mkDistinct(std::move(v)); }, a.size() >= 3);
         }
         else if (numSorts.empty()) { continue; }
         else {
